@@ -154,6 +154,7 @@ func drivePeerMgr(c *ctx) error {
 	w.Stats.Rule = "label scripts (Connected / Disconnected / GetProcess / process self-shutdown / late process exit firing the onShutdown callback) over 1-2 peers " +
 		"against the real peermanager.PeerManager with a scripted process factory; non-trivial = some process exits after a newer process for the same peer was created; distinct = distinct terms"
 	run := func(pc pmCase, tag string) {
+		c.inflight(pc)
 		labels, owner, obs, _ := runPmCase(pc)
 		// non-trivial: an exit label for a process that is not the newest of its peer
 		nontriv := false
